@@ -42,7 +42,7 @@ const entryPoint = "endorse.VirtualFirmware"
 func init() {
 	core.Register(&core.Info{
 		ID: "C13", Level: "exploration",
-		Rule: "case = one history of real endorse runs (endorse.VirtualFirmware: measure an 8 KiB image, sign, commit) against one store: in-memory VCS double with workspaces and atomic commit (mem-tx), the same double writing through (mem-wt), testing/nonprod/localnonvcs on a temp dir (local), or both at once via Context.VCSs (multi). " +
+		Rule: "case = one history of real endorse runs (endorse.VirtualFirmware: measure a 4 KiB image, sign, commit) against one store: in-memory VCS double with workspaces and atomic commit (mem-tx), the same double writing through (mem-wt), testing/nonprod/localnonvcs on a temp dir (local), or both at once via Context.VCSs (multi). " +
 			"Cases 0 and 1 are closures: breadth-first search over abstract store states (ordered (path,image) manifest entries + which image each *.binarypb signs) for the pool 3 images x 3 candidate names x overwrite{on,off} plus 3 snapshot-mode runs, every action run from every reached state until no new state appears (mem-tx and local; thorough adds 4 images x 3 names on mem-tx and 3 images x 4 names on mem-wt). " +
 			"The other cases are random histories of 8..40 runs over pools of 2..6 images and 2..6 candidate names (plain, default, with a sub-directory, with spaces/non-ASCII), 1..2 output directories, overwrite probability 0.25/0.5/0.8, 10% snapshot-mode runs, scripted retriable commit conflicts with 0..2 retries (mem-tx) and failed endorsement-file writes (mem-wt). " +
 			"Oracle after every run, over the files visible through the version-control abstraction: every manifest parses; no path and no digest twice; every entry's path (relative to the manifest) names a file that decodes as a VMLaunchEndorsement whose signed golden measurement carries the entry's digest; after a successful manifest-mode run the image's SHA-384 maps to <candidate>.binarypb and that file signs this digest with this run's timestamp; after a run without overwrite every *.binarypb that existed before is byte-identical. " +
@@ -208,7 +208,7 @@ type env struct {
 func newEnv(c *core.Ctx) *env {
 	e := &env{c: c, names: map[string]string{}, acceptedClass: map[string]bool{}}
 	for i := 0; i < 8; i++ {
-		fw := make([]byte, 8192)
+		fw := make([]byte, 4096)
 		for j := 0; j < 64; j++ {
 			fw[256+j] = byte(i*37 + j + 1)
 		}
